@@ -252,9 +252,10 @@ def run_scenarios():
             f.write(DRIVER)
         env = dict(os.environ, SCEN_DIR=d)
         p = subprocess.run([sys.executable, os.path.join(d, "driver.py")], capture_output=True, text=True, timeout=240, env=env)
-        if p.returncode != 0:
-            return None, "scenario driver crashed: " + (p.stderr or p.stdout)[-1500:]
-        return json.loads(p.stdout.strip().split("\n")[-1]), None
+        lines = [l for l in p.stdout.strip().split("\n") if l.startswith("[")]
+        if lines:
+            return json.loads(lines[-1]), None
+        return None, "scenario driver crashed: " + (p.stderr or p.stdout)[-1500:]
     finally:
         import shutil
 
